@@ -45,6 +45,9 @@ func (t *term) render(hole *term) string {
 	case "field":
 		return parts[0] + "." + t.name
 	case "elem":
+		if len(t.args) > 1 && t.args[1].op == "const" {
+			return parts[0] + "[" + t.args[1].name + "]"
+		}
 		return parts[0] + "[·]"
 	case "not":
 		return "!(" + parts[0] + ")"
@@ -58,6 +61,9 @@ type termer struct {
 	fn    *ssa.Function
 	memo  map[ssa.Value]*term
 	depth int
+	// subst: parameter terms of an inlined single-block helper; inl: inlining depth
+	subst map[*ssa.Parameter]*term
+	inl   int
 	// stores by address value
 	stores map[ssa.Value][]*ssa.Store
 }
@@ -223,6 +229,9 @@ func negate(t *term) *term {
 func (tm *termer) build(v ssa.Value) *term {
 	switch x := v.(type) {
 	case *ssa.Parameter:
+		if t, ok := tm.subst[x]; ok {
+			return t
+		}
 		for i, p := range tm.fn.Params {
 			if p == x {
 				return &term{op: "param", name: fmt.Sprintf("#%d", i)}
@@ -330,6 +339,27 @@ func (tm *termer) build(v ssa.Value) *term {
 		if cc.IsInvoke() {
 			return &term{op: "invoke", name: cc.Method.Name(), obj: cc.Method, args: append([]*term{tm.of(cc.Value)}, args...)}
 		}
+		// a straight-line helper of the same package is read through (extract-helper refactors)
+		if callee := cc.StaticCallee(); callee != nil && callee != tm.fn && callee.Pkg != nil && callee.Pkg == tm.fn.Pkg &&
+			len(callee.Blocks) == 1 && tm.inl < 2 && len(callee.Params) == len(args) && callee.Signature.Results().Len() == 1 {
+			if ret, ok := callee.Blocks[0].Instrs[len(callee.Blocks[0].Instrs)-1].(*ssa.Return); ok && len(ret.Results) == 1 {
+				hasCall := false
+				for _, in := range callee.Blocks[0].Instrs {
+					if c2, ok := in.(*ssa.Call); ok && c2.Common().StaticCallee() == callee {
+						hasCall = true
+					}
+				}
+				if !hasCall {
+					sub := newTermer(callee)
+					sub.inl = tm.inl + 1
+					sub.subst = map[*ssa.Parameter]*term{}
+					for i, p := range callee.Params {
+						sub.subst[p] = args[i]
+					}
+					return sub.of(ret.Results[0])
+				}
+			}
+		}
 		if obj := ssau.CalleeObj(x); obj != nil {
 			return &term{op: "call", name: obj.FullName(), obj: obj, args: args}
 		}
@@ -394,6 +424,8 @@ type indexLoop struct {
 	index ssa.Value // the value used as subscript inside the body
 	slice ssa.Value // the slice whose length bounds the loop
 	why   string    // non-empty: not a recognised full-range loop
+	// partial: the loop shape is understood and it provably does not cover [0,len): a violation, not an unknown idiom
+	partial bool
 }
 
 func lenOf(v ssa.Value) ssa.Value {
@@ -433,6 +465,13 @@ func recogniseIndexLoop(l *ssau.Loop) *indexLoop {
 	s := lenOf(cmp.Y)
 	if s == nil {
 		il.why = "the loop bound is not len(slice)"
+		if b, ok := cmp.Y.(*ssa.BinOp); ok && b.Op == token.SUB && lenOf(b.X) != nil {
+			if k, isC := ssau.ConstInt(b.Y); isC && k > 0 {
+				il.why = fmt.Sprintf("the loop stops %d short of len(slice)", k)
+				il.partial = true
+				il.slice = lenOf(b.X)
+			}
+		}
 		return il
 	}
 	il.slice = s
@@ -455,7 +494,10 @@ func recogniseIndexLoop(l *ssau.Loop) *indexLoop {
 		pred := h.Preds[i]
 		if !l.Blocks[pred] {
 			if !isConstInt(e, init) {
-				il.why = fmt.Sprintf("the counter does not start at %d", init+0)
+				il.why = "the loop does not start at the first element"
+				if k, isC := ssau.ConstInt(e); isC && k > init {
+					il.partial = true
+				}
 				return il
 			}
 			continue
